@@ -81,9 +81,23 @@ def expand_flows(flows, limit=64, deep=False):
     """split flows whose value is a top-level ITE into one flow per leaf (path condition extended).
     deep: tuples merged component-wise are split as well, on the outermost condition found in their components"""
     out = []
-    work = list(flows)
+
+    def conj(pc):
+        # a conjunction on the path is its conjuncts on the path
+        r = []
+        for c_ in pc:
+            stack = [c_]
+            while stack:
+                x = stack.pop(0)
+                if isinstance(x, Tm.T) and x.op == "and":
+                    stack = list(x.args) + stack
+                else:
+                    r.append(x)
+        return tuple(r)
+    work = [(conj(pc), v) for pc, v in flows]
     while work:
         pc, v = work.pop(0)
+        pc = conj(pc)
         c = Tm.first_branch_cond(v) if deep and v.op == "tuple" else None
         if c is not None and len(out) + len(work) < limit:
             work.insert(0, (pc + (Tm.not_(c),), Tm.assume(v, c, False)))
